@@ -106,8 +106,9 @@ func verifC13Faults() {
 // (v) calls for different (dir,name) touch disjoint kernel paths; (durability order) fsync precedes rename.
 func verifC13Disjoint() {
 	fs, root := verifC13Setup()
-	da, na := verifDirs[verifChoose(2)], verifNames[verifChoose(2)]
-	db, nb := verifDirs[verifChoose(2)], verifNames[verifChoose(2)]
+	names := []string{"a", "b", "t.idx", "t.dat", "t"}
+	da, na := verifDirs[verifChoose(2)], names[verifChoose(len(names))]
+	db, nb := verifDirs[verifChoose(2)], names[verifChoose(len(names))]
 	verifAssume(da != db || na != nb)
 	verifKernelTraceReset()
 	fs.AtomicCreate(da, na, verifNondetBytes("x", 1))
